@@ -55,6 +55,10 @@ func checkEqualityTables(r *Run, prog *Program, a *Anchors, pfx string) {
 		if !scalar {
 			// Uintptr is an unsigned integer kind the table may or may not support; everything else non-scalar must have no comparator
 			if k == kUintptr {
+				// if it is supported at all, then as the unsigned integer kind it is: both tables must say so
+				ct := kt.coerceType[k]
+				okU := f == nil || (ct != nil && ct.String() == "uint64" && kt.cmpAssert[f] != nil && kt.cmpAssert[f].String() == "uint64")
+				r.Check(pfx+".kind-row", key, prog.pos(a.EqTable.Pos()), okU, fmt.Sprintf("Uintptr has comparator %s but its literal is coerced to %v: the two tables disagree", fnName(f), ct))
 				continue
 			}
 			r.Check(pfx+".kind-row", key, prog.pos(a.EqTable.Pos()), f == nil, "kind "+kindNames[k]+" is not a scalar: equality against it must be an error, but the table yields comparator "+fnName(f))
@@ -295,6 +299,30 @@ func checkCoercionErrors(r *Run, prog *Program, a *Anchors, pfx string) {
 				}
 				r.Check(pfx+".coercion-error", m.Name()+":coercion-failed", prog.pos(sm.Ret.Pos()), ec == "nonnil" && okc && !bv,
 					"the literal could not be coerced to the value's type but the matcher returns ("+shortKey(sm.Results[0])+", "+ec+" error): an invalid literal must be reported as an error")
+			}
+			// the == matcher has no other way to fail: an error is returned only when the literal could not be coerced or
+			// the kind has no comparator (a literal that is valid for the type compares false, it is not an error)
+			if m.Name() == "doMatchEqual" || strings.HasSuffix(m.Name(), "Equal") {
+				if errClass(sm, sm.Results[1]) != "nil" {
+					justified := false
+					for _, ev := range sm.Events() {
+						if ev.Instr == nil || ev.Res == nil {
+							continue
+						}
+						if ev.Callee == a.CoerceTab {
+							if eq, known := evalEq(sm.St, &Sym{K: sRes, A: ev.Res, Idx: 1}, nilSym()); known && !eq {
+								justified = true
+							}
+						}
+						if ev.Callee == a.EqTable {
+							if eq, known := evalEq(sm.St, ev.Res, nilSym()); known && eq {
+								justified = true
+							}
+						}
+					}
+					r.Check(pfx+".equality-error-sources", m.Name()+":error-return", prog.pos(sm.Ret.Pos()), justified,
+						"the equality matcher returns an error on a path where the literal was coerced and a comparator exists: a valid literal that denotes a different value must compare false, not fail [path "+strings.Join(sm.St.trail, " ")+"]")
+				}
 			}
 			// equality against a value with no comparator
 			for _, ev := range sm.Events() {
